@@ -55,11 +55,13 @@ type baseRecord struct {
 
 type dataRecord struct {
 	baseRecord
+	// encodeErr is the first error hit by GetBuffer when encoding the elements.
+	encodeErr error
 }
 
 func NewDataRecord(id uint16, numElements, numExtraElements int, isDecoding bool) *dataRecord {
 	return &dataRecord{
-		baseRecord{
+		baseRecord: baseRecord{
 			fieldCount:         0,
 			templateID:         id,
 			isDecoding:         isDecoding,
@@ -76,7 +78,7 @@ func NewDataRecordFromElements(id uint16, elements []InfoElementWithValue, isDec
 		}
 	}
 	return &dataRecord{
-		baseRecord{
+		baseRecord: baseRecord{
 			fieldCount:         uint16(len(elements)),
 			templateID:         id,
 			isDecoding:         isDecoding,
@@ -207,15 +209,25 @@ func (d *dataRecord) GetBuffer() []byte {
 		return d.buffer
 	}
 	d.buffer = make([]byte, d.len)
+	d.encodeErr = nil
 	index := 0
 	for _, element := range d.orderedElementList {
 		err := encodeInfoElementValueToBuff(element, d.buffer, index)
 		if err != nil {
 			klog.Error(err)
+			if d.encodeErr == nil {
+				d.encodeErr = err
+			}
 		}
 		index += element.GetLength()
 	}
 	return d.buffer
+}
+
+// GetEncodeError returns the first error GetBuffer hit when encoding the elements of the
+// record, if any: the corresponding fields of the buffer were left zeroed.
+func (d *dataRecord) GetEncodeError() error {
+	return d.encodeErr
 }
 
 func (d *dataRecord) GetRecordLength() int {
